@@ -21,8 +21,9 @@
    The model follows the code after the repairs of C17-a/b/c/d/f/g/h/i (fix: commits): KILL stops
    the RUNNING timer and, for a basic task, kills the group; ensureBasicTaskKilled never blocks and
    sweeps the group of a reaped child; ControllableTask.Kill refuses without a client and sweeps the
-   process group when it returns.  Left as they are (recorded): KILL during the start-up poll of a
-   controllable task (C17-e), KILL before the dial returned (C17-j), KILL of a running hook (C17-b).
+   process group when it returns; the start-up poll of Launch notices a Kill (C17-e) and its
+   wrong-start-state branch sweeps the group and waits (C17-k).  Left as they are (recorded): KILL
+   before the dial returned (C17-j), KILL of a running hook (C17-b), double START (C17-l).
 
    OS facts taken as given (named in props.d/C17.json): SIGKILL kills; a signal to the group reaches
    every member; kill(2) on a group that only holds zombies succeeds; a zombie still "exists" for
@@ -299,9 +300,13 @@ Definition ckill (b : beh) (s : cst) : cst * list out :=
         if pid_exists s1 then send_sig b TERM KInt s1 else (set_kpc s1 KFin, [])
     end.
 
+(* one iteration of the start-up poll.  When Kill has closed the client (t.rpc == nil) the loop
+   stops polling and waits for the process Kill is terminating, like the reaper (repair C17-e) *)
 Definition poll_guard (s : cst) (k : cst * list out) : cst * list out :=
   match c_phase s with
-  | CPoll => if c_rpc s then k else (ccrash s, [OCrash])         (* t.rpc.GetState in the poll loop *)
+  | CPoll => if c_rpc s then k
+             else (mkC CWait false (c_active s) (c_pending s) (c_kpc s) (c_tgt s) (c_proc s) (c_gc s)
+                       (c_done s) false, [])
   | _ => (s, [])
   end.
 
@@ -337,8 +342,8 @@ Definition cstep (b : beh) (s : cst) (a : action) : cst * list out :=
   | APollBad =>
     poll_guard s
       (if is_run (c_proc s) && bh_bad_start b
-       then (mkC CEnd true false (c_pending s) (c_kpc s) (c_tgt s) (PZombie DSig) (c_gc s) (c_done s) false,
-             [OSig ToPid KILL9; OStatus FAILED])              (* never waited for: stays a zombie *)
+       then (mkC CEnd true false (c_pending s) (c_kpc s) (c_tgt s) (PReaped DSig) false (c_done s) false,
+             [OSig ToPid KILL9; OSig ToGroup KILL9; OStatus FAILED])   (* pid, then the group; waited for (repair C17-k) *)
        else (s, []))
   | APollTimeout =>
     poll_guard s
@@ -810,9 +815,12 @@ Definition mon17 (c : c17_case) : N :=
     if basic then (if double_start false l then 22 else 4) else 18           (* KILL left the child running *)
   else if ctl && killed && negb (before_first is_listen is_kill l) && mo_main_alive o then 20   (* KILL before the dial: refused *)
   else if ctl && killed && existsb is_settle (from_first_kill l) && mo_main_alive o then 8
-  else if ctl && killed && existsb is_settle (from_first_kill l) && mo_gc_alive o then
-    (* the task had already failed at start-up when KILL came: left over by Launch, not by Kill *)
-    if existsb terminal (firstn (N.to_nat (mo_before_kill o)) sts) then 21 else 7
+  else if ctl && killed && existsb is_settle (from_first_kill l) && mo_gc_alive o &&
+          negb (existsb terminal (firstn (N.to_nat (mo_before_kill o)) sts)) then 7
+  (* the task had already failed at start-up when KILL came: left over by Launch, not by Kill.  (A
+     task that was up and left by itself before the KILL is not a kill / stop path: not judged.) *)
+  else if ctl && killed && existsb is_settle (from_first_kill l) && mo_gc_alive o &&
+          negb (existsb (status_eqb RUNNING) (firstn (N.to_nat (mo_before_kill o)) sts)) then 21
   else if basic && negb killed && last_is_stop l false && Nat.leb (starts l) 1 &&
           (mo_main_alive o || mo_gc_alive o) then
     if negb (mo_main_alive o) && existsb is_exit l then 13                  (* main had left, its child stays *)
